@@ -9,6 +9,8 @@ func init() {
 				Quick: map[string]int{"kmax": 3}, Thorough: map[string]int{"kmax": 4},
 				Reach:     []string{"skipped by hint", "some lookups de-duplicated", "nothing to de-duplicate"},
 				Functions: []string{"executor.(*DepthExecutor).executeRequests", "executor.(*DepthExecutor).getVariables", "executor.(*DepthExecutor).isNeedToQuery", "executor.(*DepthExecutor).setIMap", "executor.indexMap.Set", "executor.indexMap.GetSameIndexes", "executor.(*CachedPointDataExtractor).Extract", "executor.copyMap"}},
+			{Name: "point-syntax", Pkg: "executor", Files: []string{"executor/c12.go"}, Entry: "VerifPointData", Mode: "seq",
+				Reach: []string{"point parsed"}, Functions: []string{"executor.(*CachedPointDataExtractor).Extract"}},
 			{Name: "roundtrips", Pkg: ".", Files: []string{"root/fed.go", "root/c01.go", "root/c02.go"}, Entry: "VerifRoundTrips", Mode: "seq", Native: true,
 				Quick: map[string]int{"k": 2}, Thorough: map[string]int{"k": 4},
 				Reach: []string{"round trips counted", "stitched answer compared", "batched call inspected"}, Functions: pipelineFns},
